@@ -24,6 +24,9 @@ type genTrack struct {
 	bf      bool    // H264 with frame reordering (muxer_bframes.go)
 	bfPTS   []int64 // planned presentation / decode times of the pattern
 	bfDTS   []int64
+	// the generator's own estimate of where the open segment of a video track began (boundary mode)
+	segStart int64
+	segKnown bool
 }
 
 func (muxerSlice) Corpus() [][]string {
@@ -203,6 +206,12 @@ func (muxerSlice) Gen(r *rand.Rand, _ int, tier string) ([]string, []string) {
 	if paramChanges {
 		tags = append(tags, "param-changes")
 	}
+	// boundary mode: key frames placed exactly one tick before / at / one tick after the instant at which the
+	// open segment reaches SegmentMinDuration (C02: "no shorter than SegmentMinDuration")
+	boundary := r.Intn(4) == 0 && segMin > 0
+	if boundary {
+		tags = append(tags, "keyframe-at-segmin-boundary")
+	}
 	malformedWrites := r.Intn(30) == 0
 	if malformedWrites {
 		tags = append(tags, "malformed-writes")
@@ -281,6 +290,18 @@ func (muxerSlice) Gen(r *rand.Rand, _ int, tier string) ([]string, []string) {
 			if r.Intn(15) == 0 {
 				ra = !ra // irregular key-frame placement
 			}
+			if boundary && t.segKnown {
+				target := t.segStart + segMin*int64(t.rate)/1000000000
+				if pts < target-1 && pts+t.frame > target-1 && r.Intn(4) != 0 {
+					pts = target + int64(r.Intn(3)) - 1
+					t.nextPTS = pts
+					ntp = ntpBase + int64(float64(pts)/float64(t.rate)*1000) - int64(baseSec*1000)
+					if ntp < 0 {
+						ntp = 0
+					}
+					ra = true
+				}
+			}
 			pic := true
 			par := 0
 			if ra {
@@ -302,6 +323,11 @@ func (muxerSlice) Gen(r *rand.Rand, _ int, tier string) ([]string, []string) {
 				}
 			}
 			if ra {
+				if !t.started && par != 0 {
+					t.segStart, t.segKnown = pts, true
+				} else if t.segKnown && pts*1000000000/int64(t.rate)-t.segStart*1000000000/int64(t.rate) >= segMin {
+					t.segStart = pts
+				}
 				t.started = true
 			}
 			pay++
